@@ -5,6 +5,22 @@ from pathlib import Path
 ROOT = Path(__file__).resolve().parent.parent
 TECH = "machine-checked proof in Coq 8.16 over an executable Gallina model + differential correspondence with the real code"
 CHECKS = {
+ "C02": ("Coq theorems over an executable model of the controller (assign/act/plan/flush/notify) composed with a maximally asynchronous cluster (Sched/Model.v): a 31-clause invariant is preserved by every step (Sched/Inv*.v), for ANY label sequence = any heuristic choice, completion order and event delivery order; corollaries C02_dispatch_at_most_once, C02_dispatch_ok (idle, free, GPU-suitable worker; inputs produced and on host or in transit from a holding source), C02_held_task_inputs, C02_start_needs_inputs, C02_no_double_enqueue_no_crash; worker receive loop modelled and proved separately (C02_worker_starts_after_arrival). Tied by replaying every recorded run of the real controller loop (fake cluster behind the Bridge seam) and of the real worker loop on the model. 'At least once' is C03's completion theorem.",
+         "Trusted: Coq kernel+vm_compute; fake cluster + id mapping in harness/sched_common.py; distance/overhead tables of the heuristic are not modelled (its choices are read from the trace and validated); one task per TaskSequence.", "DESIGN.md section 4 (C02)"),
+ "C04": ("Coq theorems from the same invariant as C02: C04_purge_sound (a purge in flight: every consumer completed, requested value delivered, no unanswered transfer/fetch of it anywhere, no waiting/running/future task needs it), C04_transfer_source_holds, C04_fetch_source_holds, C04_never_fails (no transfer or fetch ever finds its source empty) -- for every schedule and event interleaving. The double-fetch defect that made the full statement false was repaired (fix: commit) and the model is of the fixed code. Tied by trace replay of the real controller and by cluster-side oracles on every purge/transmit/fetch call.",
+         "Trusted: as C02. Cluster semantics assumed: a transfer/fetch reads its source when it completes; purge/transfer/publication messages may overtake each other arbitrarily.", "DESIGN.md section 4 (C04)"),
+ "C05": ("PARTIAL by nature. Logic proved in Coq (Net/Executor.v): C05_child_death_detected (any exit code incl. 0), C05_failure_is_reported, C05_task_failure_not_silent, C05_failure_ends_run, C05_terminate_covers_children / _no_live_child / _idempotent, C05_history_invariant by induction over all histories; C05_no_segments_left_refuted + _partial for the SIGKILLed shm server (open finding). Runtime half = bounded fault enumeration on REAL processes (harness/c05_faults.py: task raises / sys.exit / os._exit / SIGKILL before, between, after publishing; kill of data server and shm server) asserting run ends within a deadline, no child processes, no /dev/shm segments.",
+         "Trusted: Coq kernel; OS process reaping, zmq linger and kernel shm lifetime cannot be modelled and are only observed on the enumerated scenarios; C06 delivery and C07 payload integrity enter as hypotheses.", "DESIGN.md section 5 (C05)"),
+ "C06": ("Twelve Coq theorems over a model of Listener / ReliableSender / the two receive loops composed with a lossy, duplicating, reordering network (Net/Reliable*.v, Net/Frames*.v): at-most-once, exactly-once-or-still-in-flight-with-budget, ack implies delivered, retry progress and give-up bound (bounded retries then raise), only the give-up raises, malformed multipart shapes rejected / legal ones round-trip -- for every operation list. Tied by driving the real classes over a fake zmq and clock and replaying each trace in Coq.",
+         "Trusted: Coq kernel+vm_compute; pickle itself is not modelled; the network does not forge frames; one sender per listener address.", "DESIGN.md section 5 (C06)"),
+ "C07": ("Eleven Coq theorems over a small-step model of DataServer (Net/DataServer.v) x shm store x lossy network: stored/in-flight/fetched bytes equal the source's, announce at most once and only if stored, purge waits for running jobs, no resurrection after purge, late payloads discarded; progress steps proved one by one (C07_progress_steps_partial: end-to-end completion needs fairness and is checked by the oracle after a loss-free drain). Tied by driving the real DataServer with scripted Listener, manual thread pool and recording shm client, each trace replayed in Coq.",
+         "Trusted: Coq kernel+vm_compute; pool jobs are atomic in the model; ds2shmid injective (C01 fix); pickle framing is C06's.", "DESIGN.md section 5 (C07)"),
+ "C10": ("Ten Coq theorems over models of node2task/graph2job/param_source and runner.run + Memory + is_last_output_of + fluent output naming (Low/Into.v, Low/Runner.v): lowering shape, one edge per placeholder occurrence, call arguments correct (partial: regrouping by param_source tied by correspondence), yield i bound to the i-th key-sorted output for every n (zero-padded fluent names make string order = numeric order), count mismatch always fails, last-output consistency; n=1 yields case is a recorded finding (_refuted). Tied by running real graph2job and real runner.run with a dict-backed Memory.",
+         "Trusted: Coq kernel+vm_compute; callables are Section variables; cloudpickle/pydantic/shm publication not modelled.", "DESIGN.md section 7 (C10)"),
+ "C13": ("Coq theorems over a mini-xarray of nodes and a transcription of the fluent Action API (Fluent/XArr.v, Action.v, Batch.v): reduce cell/dims spec with and without keep_dim, batching never changes values for ANY batch size under the batch law, never fails, loop terminates, batched mean equals mean over any field, variance identity for batched std (C13_std_batched_eq_partial: cell-level composition tied by correspondence), map/broadcast/select specs. Tied by running generated fluent programs on the real API and comparing dims/coords/cell expressions in Coq, plus a NumPy reference oracle at every coordinate.",
+         "Trusted: Coq kernel+vm_compute; one batching round is modelled in closed form (validated by correspondence); xarray re-alignment cases outside the generator are Err Unsupported; floating point outside the model.", "DESIGN.md section 8 (C13)"),
+ "C16": ("Nine full-strength Coq theorems over a transcription of views.dependants/param_source and scheduler.graph.precompute (decompose, enrich, nearest common descendant, sort): components are exactly the weakly connected components (partition, closed, connected), sorted by weight, sources exact, edge maps exact, value = depth - distance to nearest sink, depth = longest chain, distance matrix = least common-descendant radius -- for every well-formed acyclic job. Termination of precompute is sampled, not proved. Tied by correspondence on exhaustive small DAGs and random DAGs.",
+         "Trusted: Coq kernel+vm_compute; CPython set iteration order abstracted (lemmas hold for any adjacency order); coptrs branch not modelled; wf_job includes 'no input slot fed by two edges'.", "DESIGN.md section 7 (C16)"),
  "C12": ("Coq theorems C12_roundtrip_partial / _json_partial / _file_partial (deserialise(serialise g) == g for every well-formed graph with unique names, any size, with or without outputs on terminal nodes; side condition kw_ok: no input named self/name/outputs/payload, which Node(...) itself rejects), C12_nodes_total, two _refuted witnesses; model = pointer-graph heap (Graph/GStore.v, Graph/Export.v) transcribing Node/Graph/export; tied by byte-for-byte correspondence of serialise/deserialise/__eq__/jsonify on generated graphs.",
          "Trusted: Coq kernel+vm_compute; graphlib static_order, json, dill enter as Section hypotheses (order validated per run inside Coq by topo_okb; json/dill round trips compared per case); harness glue (object graph <-> heap numbering).", "DESIGN.md section 7 (C12)"),
  "C15": ("Coq theorems over a marker/dispatch table REGENERATED from backends/__init__.py, arrayapi.py, xarray.py on every run (translate/batchable.py): C15_generated_tables_ok, C15_marked_are_batchable (batch law for every @batchable method, both back-ends, every axis, any batches, exact rationals), C15_mean_std_var_stack_not_batchable (counter-examples), C15_reductions_any_partition, C15_multi_is_stack_then_reduce. 'Equals NumPy' is decided by oracle + correspondence on numpy / DataArray / Dataset inputs (no theorem can cover NumPy itself).",
